@@ -555,9 +555,16 @@ func (idx *SelectorAndNamedPortIndex) UpdateEndpointOrSet(
 		newEndpointData.labels = labels
 	}
 	if len(parentIDs) > 0 {
-		parents := make([]*npParentData, len(parentIDs))
-		for i, pID := range parentIDs {
-			parents[i] = idx.getOrCreateParent(pID)
+		parents := make([]*npParentData, 0, len(parentIDs))
+		for _, pID := range parentIDs {
+			parent := idx.getOrCreateParent(pID)
+			if slices.Contains(parents, parent) {
+				// Repeated reference to the same parent: the first one wins for
+				// label inheritance anyway, and the parent's endpoint set only
+				// holds one entry for this endpoint.
+				continue
+			}
+			parents = append(parents, parent)
 		}
 		newEndpointData.parents = parents
 	}
